@@ -29,6 +29,116 @@ structure DS where
 
 def DS.capStr (d : DS) (l : Nat) (ap : Bool) : String := toString (capOf d.s l ap)
 
+/-! ### area `window`: all interleavings of the tick the goroutine has already received with up to three calls -/
+
+inductive WOp
+  | use (l : Nat) (a : Int) | new (p c : Nat) | setcap (l c : Nat) | close (l : Nat)
+
+def enabledM (s : S) : Micro → Bool
+  | .useNeg => true
+  | .apiLock => s.holder == .free
+  | .apiRead | .use _ _ | .newChild _ _ | .closeChild _ | .setCap _ _ => s.holder == .api
+  | .closeLock => s.holder == .free && s.cpc == .idle
+  | .closeMark => s.holder == .closer && s.cpc == .crit && !s.closed 0
+  | .closeSkip => s.cpc == .crit && s.closed 0
+  | .closeUnlock => s.cpc == .marked
+  | .tickFires => s.tpc == .sel
+  | .tickLock => s.tpc == .tlock && s.holder == .free
+  | .tickRuns => s.tpc == .tcrit
+  | .tickUnlock => s.tpc == .tunl
+  | .doneReceived => s.tpc == .sel && s.cpc == .send
+  | .drainLock => s.tpc == .dlock && s.holder == .free
+  | .drain => s.tpc == .dcrit
+  | .drainUnlock => s.tpc == .dunl
+
+/-- the steps of one call, in program order -/
+def threadOf (s : S) : WOp → List Micro
+  | .use l a => if a < 0 then [.useNeg] else [.apiLock, .use l a.toNat]
+  | .new p c => [.apiLock, .newChild p c]
+  | .setcap l c => [.apiLock, .setCap l c]
+  | .close l =>
+    if l = 0 then (if s.closed 0 || s.cpc != .idle then [.apiLock, .apiRead]
+                   else [.closeLock, .closeMark, .closeUnlock, .doneReceived])
+    else [.apiLock, .closeChild l]
+
+/-- every complete interleaving of the threads (each step taken through `RL.micro`, so every outcome is a run of
+    `RL.Step`: `C16.schedule_is_run`); `none` = a schedule got stuck -/
+def explore : Nat → S → List (List Micro) → List (Option S)
+  | 0, _, _ => [none]
+  | fuel + 1, s, ths =>
+    if ths.all List.isEmpty then [some s]
+    else
+      let idx := List.range ths.length
+      let nexts := idx.filterMap fun i =>
+        match ths.getD i [] with
+        | [] => none
+        | m :: rest => if enabledM s m then some (micro s m, ths.set i rest) else none
+      if nexts.isEmpty then [none] else nexts.flatMap fun (s', ths') => explore fuel s' ths'
+
+def windowOutcome (s s' : S) (ops : List WOp) : String :=
+  let useId := s.nextReq
+  let hasUse := ops.any fun o => match o with | .use _ _ => true | _ => false
+  let perOp := ops.filterMap fun o =>
+    match o with
+    | .use _ _ =>
+      some ("u=" ++ (match s'.answered.find? (fun x => x.1 == useId) with | some x => ansStr x.2 | none => "pending"))
+    | .new _ _ => some (if s'.n > s.n then "n=ok" else "n=nil")
+    | _ => none
+  let fresh := (s'.answered.take (s'.answered.length - s.answered.length)).filter (fun x => !(hasUse && x.1 == useId))
+  let sorted := fresh.mergeSort (fun a b => a.1 ≤ b.1)
+  glue (["window"] ++ perOp ++ sorted.map (fun a => "r" ++ toString a.1 ++ "=" ++ ansStr a.2) ++
+        ["closed=" ++ perLimiter s' (fun x => if s'.closed x then "1" else "0"),
+         "last=" ++ perLimiter s' (fun x => toString (s'.last x))])
+
+def splitOps (ws : List String) : List (List String) :=
+  (ws.foldl (fun (acc : List (List String)) w =>
+    if w == ";" then [] :: acc else match acc with | [] => [[w]] | h :: t => (h ++ [w]) :: t) [[]]).reverse.filter
+      (fun l => !l.isEmpty)
+
+def parseWOp (s : S) : List String → Option WOp
+  | ["use", l, a] => match l.toNat?, a.toInt? with | some l, some a => if l < s.n then some (.use l a) else none | _, _ => none
+  | ["new", p, c] => match p.toNat?, c.toInt? with | some p, some c => if p < s.n then some (.new p c.toNat) else none | _, _ => none
+  | ["setcap", l, c] => match l.toNat?, c.toInt? with | some l, some c => if l < s.n then some (.setcap l c.toNat) else none | _, _ => none
+  | ["close", l] => match l.toNat? with | some l => if l < s.n then some (.close l) else none | none => none
+  | _ => none
+
+/-- only nil / error is compared, not which error -/
+def collapseErr (o : String) : String :=
+  ((o.replace "err-neg" "err").replace "err-cap" "err").replace "err-closed" "err" |>.replace "err-other" "err"
+
+/-- one `window` line: the set of outcomes of all interleavings; the outcome observed by the harness selects the
+    interleaving the history continues from -/
+def windowStep (d : DS) (ws0 : List String) : Option DS × String :=
+  let s := d.s
+  -- `… => <outcome observed by the harness>` (appended by the check): continue from the interleaving that happened
+  let ws := ws0.takeWhile (· != "=>")
+  let seen := collapseErr (" ".intercalate ((ws0.dropWhile (· != "=>")).drop 1))
+  if s.tpc != .sel then (some d, "no-ticker") else
+  match (splitOps ws).mapM (parseWOp s) with
+  | none => (some d, "bad-op")
+  | some ops =>
+    let uses := (ops.filter fun o => match o with | .use _ _ => true | _ => false).length
+    let news := (ops.filter fun o => match o with | .new _ _ => true | _ => false).length
+    let roots := (ops.filter fun o => match o with | .close 0 => true | _ => false).length
+    if uses > 1 || news > 1 || roots > 1 || ops.length > 3 || ops.isEmpty then (some d, "bad-op") else
+    let s0 := micro s .tickFires
+    let rootClose := roots == 1 && !s.closed 0 && s.cpc == .idle
+    let ticker : List Micro := [.tickLock, .tickRuns, .tickUnlock] ++ (if rootClose then [.drainLock, .drain, .drainUnlock] else [])
+    -- (root `Close` may also win against a tick that is only ABOUT to fire: then `done` is received at the `select`
+    -- and no tick is served any more)
+    let finals := explore 64 s0 (ticker :: ops.map (threadOf s)) ++
+      (if rootClose then explore 64 s ([.drainLock, .drain, .drainUnlock] :: ops.map (threadOf s)) else [])
+    let outs := finals.map fun o => match o with | some s' => windowOutcome s s' ops | none => "stuck"
+    let outs := (outs.eraseDups).mergeSort (fun a b => a ≤ b)
+    let matching := finals.find? fun o => match o with | some s' => collapseErr (windowOutcome s s' ops) == seen | none => false
+    match matching with
+    | some (some s') => (some { d with s := s' }, windowOutcome s s' ops)
+    | _ =>
+      -- nothing observed (or not an allowed outcome): print the allowed set, continue from its first element
+      let pick := finals.find? fun o => match o with | some s' => windowOutcome s s' ops == outs.headD "" | none => false
+      let d' := match pick with | some (some s') => { d with s := s' } | _ => d
+      (some d', "window-set " ++ " || ".intercalate outs)
+
 def step (st : Option DS) (line : String) : Option DS × String :=
   match words line, st with
   | ["reset", c], _ =>
@@ -57,6 +167,7 @@ def step (st : Option DS) (line : String) : Option DS × String :=
         (some { d with s := s' }, "r" ++ toString s.nextReq ++ " " ++ out)
       else (st, "bad-handle")
     | _, _ => (st, "bad-op")
+  | "window" :: _mode :: ws, some d => windowStep d ws
   | ["tick"], some d =>
     let s := d.s
     if s.tpc = .sel then
